@@ -246,6 +246,22 @@ def r13_4(ctx, m, L):
                     bad = (p, f"sys.exit status {s!r}")
                 continue
             bad = (p, f"continues to write the results ('{p.term}')")
+    # the list whose exit codes are tested must still hold the processes: emptying it while joining makes the test vacuous
+    for i_, st in enumerate(region):
+        if not isinstance(st, ast.If):
+            continue
+        lists = {a.id for c_ in ast.walk(st.test) if isinstance(c_, ast.Call) for a in c_.args if isinstance(a, ast.Name)}
+        for prev in region[:i_]:
+            for x in ast.walk(prev):
+                hit = None
+                if isinstance(x, ast.Call) and isinstance(x.func, ast.Attribute) and x.func.attr in ("pop", "clear", "remove") and isinstance(x.func.value, ast.Name) and x.func.value.id in lists:
+                    hit = norm(x)
+                elif isinstance(x, ast.Assign) and any(isinstance(t, ast.Name) and t.id in lists for t in x.targets):
+                    hit = norm(x)
+                elif isinstance(x, ast.Delete) and any(isinstance(t, (ast.Subscript, ast.Name)) and norm(t).split("[")[0] in lists for t in x.targets):
+                    hit = norm(x)
+                if hit and rc.test_facts(repo, pf, st.test, True).keys() & {"exit_all_zero"}:
+                    ctx.violated("R13.4", pf.where(x), f"`{hit[:60]}` takes the processes out of the list before `{norm(st.test)[:50]}` looks at their exit codes: the test runs over an empty list and passes, so a worker that died after delivering its results goes unnoticed and the command reports success", key_of(pf, f"exitcode-list-emptied:{hit[:40]}"))
     what = "after joining, a non-zero worker exit code is detected and the command exits non-zero before the results are written"
     if not tested:
         ctx.violated("R13.4", L.where(), what + " (exit codes are not tested after the loop)", key_of(pf, f"post-join-exitcodes:{norm(L.node.test)}"))
